@@ -1793,4 +1793,9 @@ mod tests {
 #[allow(unused_imports, missing_docs, dead_code, unreachable_pub)]
 pub mod verif {
     use super::*;
+
+    /// `extract_sequence` (C43): the sequence parsed out of a mismatch message
+    pub fn extract_sequence_hook(msg: &str) -> Option<u64> {
+        extract_sequence(msg).ok()
+    }
 }
